@@ -50,6 +50,12 @@ class RunResult:
         self.digest.update(repr(parts).encode("utf-8", "surrogatepass"))
 
 
+def shash(obj):
+    """A hash that does not depend on PYTHONHASHSEED."""
+    return int.from_bytes(hashlib.blake2b(repr(obj).encode("utf-8", "surrogatepass"),
+                                          digest_size=6).digest(), "big")
+
+
 def jdump(obj):
     return json.dumps(obj, ensure_ascii=True, sort_keys=True)
 
